@@ -104,6 +104,9 @@ func backendProp(b backendSpec, meaning string) propFunc {
 			r.Clauses = append(r.Clauses, runtimeArrClause)
 			c.runRuntimeArrayShapes(r, "runtimearray.shapes", inPkgs("msl"))
 			r.floor("runtimearray.shapes", 1)
+			r.Clauses = append(r.Clauses, memberKeyClause)
+			c.runMemberKeyAgree(r, "member.keyagree", "msl/internal/codegen")
+			r.floor("member.keyagree", 5)
 			r.Clauses = append(r.Clauses, guardAgreeClause)
 			c.runGuardAgree(r, "guard.agree", inPkgs("msl"))
 			r.floor("guard.agree", 3)
